@@ -193,6 +193,36 @@ def _annotations_after(cyc: dict) -> dict | None:
     return (patched.get("metadata") or {}).get("annotations") or {}
 
 
+def gen_supersede(rng: Any, i: int) -> dict:
+    """A cause superseding an open cycle: resume handlers (one still retrying) mixed into an update or a
+    deletion that arrives before the resume cycle is closed; spec flips back and forth."""
+    handlers = [
+        {"kind": "resume", "id": "r0", "opts": {"deleted": rng.random() < 0.5}, "script": [rng.choice(["ok", "ok", "perm"])], "default": "ok"},
+        {"kind": "resume", "id": "r1", "opts": {"deleted": rng.random() < 0.5, "backoff": 1.0},
+         "script": [["temp", rng.choice([2.0, 4.0, 6.0])] for _ in range(rng.choice([1, 2, 3]))], "default": "ok"},
+        {"kind": "update", "id": "u0", "script": [rng.choice(["ok", ["temp", 1.0]])], "default": "ok"},
+    ]
+    if rng.random() < 0.4:
+        handlers.append({"kind": "delete", "id": "d0", "opts": {"optional": rng.random() < 0.5}})
+    rng.shuffle(handlers)
+    essence = {"spec": {"x": 1}, "metadata": {"labels": {"l": "1"}}}
+    obj = {"name": "a", "body": {"spec": {"x": 1}, "metadata": {"labels": {"l": "1"}, "annotations": {
+        OWN_PREFIX + "last-handled-configuration": json.dumps(essence, separators=(",", ":")) + "\n"}}}}
+    t = rng.choice([0.5, 1.0, 2.0, 3.0])
+    tl: list[list] = []
+    for _ in range(rng.choice([1, 2, 3])):
+        op = rng.choice(["spec", "spec", "back", "delete"])
+        if op == "spec":
+            tl.append([t, "edit", "a", {"spec": {"x": rng.choice([2, 3])}}])
+        elif op == "back":
+            tl.append([t, "edit", "a", {"spec": {"x": 1}}])
+        else:
+            tl.append([t, "delete", "a"])
+        t += rng.choice([0.5, 1.0, 2.0, 5.0])
+    return {"seed": i, "lifecycle": rng.choice(["asap", "one_by_one", "all_at_once"]), "handlers": handlers,
+            "objects": [obj], "timeline": tl, "settings": {"execution.default_backoff": 1.0}, "end": t + 30.0}
+
+
 def _own_record(body: dict, hid: str) -> dict | None:
     """Independent decoding of a progress annotation of the default storage (short ids only)."""
     ann = (body.get("metadata") or {}).get("annotations") or {}
@@ -276,8 +306,17 @@ def oracle(ctx: Ctx, sc: dict, tr: dict) -> None:
     # at most one success per handler per handling cycle, absent the excluded environments
     if not dead_times and not sc.get("faults"):
         succ: dict[tuple, int] = {}
+        last_reason: dict[Any, str] = {}
         for cyc in tr["cycles"]:
             p = cyc.get("pcc")
+            if p and p["reason"] in KINDS and last_reason.get(cyc["uid"]) not in (None, p["reason"]):
+                # another cause has superseded the open one (e.g. the change was reverted and re-made):
+                # the handlers start over for the new outstanding change; what must never happen —
+                # an invocation while the success is recorded on the object — is checked above per call
+                for key in [k for k in succ if k[0] == cyc["uid"]]:
+                    succ.pop(key)
+            if p and p["reason"] in KINDS:
+                last_reason[cyc["uid"]] = p["reason"]
             if not p or p.get("outcomes") is None:
                 continue
             for hid, o in p["outcomes"].items():
@@ -313,6 +352,7 @@ def abstract(cyc: dict, lifecycle: str) -> tuple[list, dict] | None:
 def run(ctx: Ctx) -> None:
     n = ctx.budget(120, 4000)
     scenarios = [gen_scenario(ctx.rng, ctx.seed * 100000 + i) for i in range(n)]
+    scenarios += [gen_supersede(ctx.rng, 50_000_000 + ctx.seed * 100000 + i) for i in range(max(10, n // 4))]
     for name, sc in _corpus():
         scenarios.insert(0, sc)
     results = pool.run_many(scenarios, wall=40.0)
